@@ -111,6 +111,7 @@ class Poly:
         self.seen_half = {False: [], True: []}
         self.ops = []
         self.getter_levels = set()
+        self.observer_exceptions = []
 
     def step(self, op):
         self.ops.append(op)
@@ -133,6 +134,16 @@ class Poly:
             with quiet():
                 self.obj.divide_edges()
             self.level += 1
+            return msgs
+        if op["op"] == "observe":
+            # the other public read-only getters (used by the plots and the grid builders). Their results are not judged
+            # here, and an exception of theirs is not a C18 matter - but they must leave the polytope as it was, which
+            # the node checks of the following steps decide.
+            try:
+                with quiet():
+                    self._observe(op["what"], op.get("arg", 0))
+            except Exception as e:
+                self.observer_exceptions.append(f"{op['what']}: {type(e).__name__}")
             return msgs
         proj = bool(op.get("projection"))
         N = op.get("N")
@@ -215,6 +226,27 @@ class Poly:
             return msgs
         raise ValueError(op)
 
+    def _observe(self, what, arg):
+        o = self.obj
+        n = o.G.number_of_nodes()
+        if what == "adjacency":
+            o.get_polytope_adj_matrix()
+        elif what == "cdist":
+            o.get_cdist_matrix()
+        elif what == "neighbours":
+            o.get_neighbours_of(arg % max(1, n // (2 if self.kind == "cube4D" else 1)))
+        elif what == "edges":
+            list(o.get_edges_of_categories())
+        elif what == "str":
+            str(o)
+        elif what == "cells" and self.kind == "cube4D":
+            cells = o.get_all_cells() if arg % 2 == 0 else o.get_all_cells(include_only=list(o.G.nodes)[: 8 + arg % 40])
+            for c in cells[: 1 + arg % 3]:
+                c.get_nodes(projection=bool(arg % 2))
+        elif what == "element_graph":
+            pts = np.asarray(o.get_nodes(projection=True))[: 4 + arg % 9]
+            o.get_N_element_graph(pts)
+
     def nontrivial(self):
         return len(self.getter_levels) >= 2
 
@@ -273,12 +305,26 @@ def _machine_shard(arg):
                 N = None if frac is None else int(round(frac * avail))
                 self._do({"op": "half", "projection": projection, "N": N, "N_form": form})
 
+            @precondition(lambda self: self.p is not None)
+            @rule(what=st.sampled_from(["adjacency", "cdist", "neighbours", "edges", "str", "cells", "cells", "element_graph"]),
+                  arg=st.integers(0, 1000))
+            def observe(self, what, arg):
+                if what == "cells" and self.p.kind != "cube4D":
+                    what = "adjacency"
+                if len(lattice_cached(self.p.kind, self.p.level)) > 200 and what != "edges":
+                    what = "str"   # seconds-long on large node sets; the lower levels carry the history
+                self._do({"op": "observe", "what": what, "arg": arg})
+
             def teardown(self):
                 if self.p is not None and self.p.ops:
                     case = {"kind": self.p.kind, "ops": clean_ops(self.p.ops)}
                     res.case(sample=case, nontrivial=self.p.nontrivial(), key=case,
                              classes=[f"kind={self.p.kind}", f"reached_level={self.p.level}"]
-                             + (["getter_before_and_after_division"] if self.p.nontrivial() else []))
+                             + (["getter_before_and_after_division"] if self.p.nontrivial() else [])
+                             + (["other_getter_before_a_division"] if any(
+                                 o["op"] == "observe" and any(q["op"] == "divide" for q in self.p.ops[i:])
+                                 for i, o in enumerate(self.p.ops)) else [])
+                             + [f"observer_exception:{x}" for x in sorted(set(self.p.observer_exceptions))])
         return Subdivision
 
     res = Result()
@@ -287,10 +333,14 @@ def _machine_shard(arg):
 
 
 def _fixed_history(arg):
-    kind, top = arg
+    kind, top = arg[0], arg[1]
+    observers = len(arg) > 2 and arg[2]
     res = Result()
     ops = []
     for lv in range(top + 1):
+        if observers and len(lattice_cached(kind, lv)) <= 200:
+            ops += [{"op": "observe", "what": w, "arg": lv} for w in
+                    (["cells"] if kind == "cube4D" else []) + ["adjacency", "cdist", "neighbours", "edges", "str", "element_graph"]]
         ops += [{"op": "nodes", "projection": False, "N": None}, {"op": "nodes", "projection": True, "N": None},
                 {"op": "nodes", "projection": False, "N": 5, "N_form": 1 + lv % 3}, {"op": "nodes", "projection": True, "N": 7, "N_form": lv % 4}]
         if kind == "cube4D":
@@ -300,7 +350,9 @@ def _fixed_history(arg):
     msgs, p = run_ops(kind, ops)
     case = {"kind": kind, "ops": clean_ops(p.ops)}
     res.case(sample=case, nontrivial=True, key=case, classes=[f"kind={kind}", f"reached_level={p.level}", "fixed_full_history",
-                                                              "getter_before_and_after_division"])
+                                                              "getter_before_and_after_division"]
+             + (["other_getter_before_a_division"] if observers else [])
+             + [f"observer_exception:{x}" for x in sorted(set(p.observer_exceptions))])
     if msgs:
         res.violation(case, "; ".join(msgs))
     return res
@@ -313,17 +365,19 @@ def replay(case):
 def run(tier):
     if tier == "quick":
         max_levels = {"ico": 3, "cube3D": 3, "cube4D": 1}
-        shards, per, steps = 16, 6, 12
+        shards, per, steps = 16, 10, 12
         fixed = [("cube4D", 2), ("ico", 4), ("cube3D", 4)]
     else:
         max_levels = dict(MAX_LEVEL)
         shards, per, steps = 16, 20, 14
         fixed = [("cube4D", 2), ("ico", 4), ("cube3D", 4)]
+    fixed = fixed + [(k, top, True) for k, top in fixed]
     results = pmap(_fixed_history, fixed) + pmap(_machine_shard, [(s, per, steps, max_levels) for s in range(shards)])
     res = merge_results(results)
     res.violations.sort(key=lambda v: len(v["case"]["ops"]))
     rule = (f"Hypothesis state machine over one polytope (ico / cube3D / cube4D): rules divide (to level {max_levels}), "
-            f"get_nodes(N, projection) with N from none / 0..1.2x the node count, get_half_of_hypercube(N, projection); "
-            f"plus one fixed history per polytope calling every getter at every level up to ico 4 / cube3D 4 / cube4D 2. "
+            f"get_nodes(N, projection) with N from none / 0..1.2x the node count, get_half_of_hypercube(N, projection), observe (the other public read-only getters: adjacency, distance matrix, "
+            f"neighbours, edge categories, str, the eight cells of the hypercube, N-element graph; results not judged, they must leave the polytope unchanged); "
+            f"plus two fixed histories per polytope calling every node getter at every level up to ico 4 / cube3D 4 / cube4D 2, one of them with every observer at every level of <= 200 nodes. "
             f"Non-trivial history = a getter call before and after a division (cache path); distinct = distinct operation sequence.")
     return res, rule, {"assumptions": ["levels beyond ico 4 / cube3D 4 / hypercube 2 are outside the exploration bound"]}
